@@ -41,6 +41,10 @@ pub struct Case {
     /// a constant of the library sources (raw for prf, its SHA-256 for the pre-hashed variant)
     #[serde(default)]
     pub dict: Option<String>,
+    /// length of the stored secrets of the target credential (None = 32, what the library generates;
+    /// imported credentials may carry others: HMAC keys of any length are defined)
+    #[serde(default)]
+    pub secret_len: Option<u8>,
 }
 
 fn pat(seed: u8, len: usize) -> Vec<u8> {
@@ -73,10 +77,10 @@ pub fn cases(tier: Tier) -> Vec<Case> {
                         for ebc in 0..7u8 {
                             for variant in 0..3u8 {
                                 for &len in &lens {
-                                    v.push(Case { hmac, hmac_mc, register: true, ctap: false, uv_required, verified, secrets: 0, eval, ebc, allow: 0, variant, len, len2: None, dict: None });
+                                    v.push(Case { hmac, hmac_mc, register: true, ctap: false, uv_required, verified, secrets: 0, eval, ebc, allow: 0, variant, len, len2: None, dict: None, secret_len: None });
                                     for secrets in 0..3u8 {
                                         for allow in 0..3u8 {
-                                            v.push(Case { hmac, hmac_mc, register: false, ctap: false, uv_required, verified, secrets, eval, ebc, allow, variant, len, len2: None, dict: None });
+                                            v.push(Case { hmac, hmac_mc, register: false, ctap: false, uv_required, verified, secrets, eval, ebc, allow, variant, len, len2: None, dict: None, secret_len: None });
                                         }
                                     }
                                 }
@@ -86,9 +90,9 @@ pub fn cases(tier: Tier) -> Vec<Case> {
                         for ebc in [0u8, 2, 3] {
                             for secrets in 0..3u8 {
                                 // CTAP2-level registration: `secrets` selects the hmac-secret member {absent, false, true}
-                                v.push(Case { hmac, hmac_mc, register: true, ctap: true, uv_required, verified, secrets, eval, ebc: 0, allow: 0, variant: 1, len: 32, len2: None, dict: None });
+                                v.push(Case { hmac, hmac_mc, register: true, ctap: true, uv_required, verified, secrets, eval, ebc: 0, allow: 0, variant: 1, len: 32, len2: None, dict: None, secret_len: None });
                                 for allow in [0u8, 2] {
-                                    v.push(Case { hmac, hmac_mc, register: false, ctap: true, uv_required, verified, secrets, eval, ebc, allow, variant: 1, len: 32, len2: None, dict: None });
+                                    v.push(Case { hmac, hmac_mc, register: false, ctap: true, uv_required, verified, secrets, eval, ebc, allow, variant: 1, len: 32, len2: None, dict: None, secret_len: None });
                                 }
                             }
                         }
@@ -101,17 +105,28 @@ pub fn cases(tier: Tier) -> Vec<Case> {
     for (len, len2) in [(40u16, 24u16), (24, 40), (32, 0), (0, 32), (32, 31), (64, 0), (16, 48)] {
         for hmac in 1..3u8 {
             for ebc in [0u8, 2] {
-                v.push(Case { hmac, hmac_mc: true, register: true, ctap: false, uv_required: true, verified: true, secrets: 0, eval: 2, ebc: 0, allow: 0, variant: 1, len, len2: Some(len2), dict: None });
-                v.push(Case { hmac, hmac_mc: true, register: false, ctap: false, uv_required: true, verified: true, secrets: 2, eval: 2, ebc, allow: 2, variant: 1, len, len2: Some(len2), dict: None });
+                v.push(Case { hmac, hmac_mc: true, register: true, ctap: false, uv_required: true, verified: true, secrets: 0, eval: 2, ebc: 0, allow: 0, variant: 1, len, len2: Some(len2), dict: None, secret_len: None });
+                v.push(Case { hmac, hmac_mc: true, register: false, ctap: false, uv_required: true, verified: true, secrets: 2, eval: 2, ebc, allow: 2, variant: 1, len, len2: Some(len2), dict: None, secret_len: None });
             }
         }
     }
     // every input length 0..=300 once (hash block boundaries, scratch-buffer sizes): first input of
     // length n, second of length 300 - n, through the client's own salt derivation
     for n in 0..=300u16 {
-        v.push(Case { hmac: 2, hmac_mc: true, register: false, ctap: false, uv_required: true, verified: true, secrets: 2, eval: 2, ebc: if n % 2 == 0 { 0 } else { 2 }, allow: 2, variant: 0, len: n, len2: Some(300 - n), dict: None });
+        v.push(Case { hmac: 2, hmac_mc: true, register: false, ctap: false, uv_required: true, verified: true, secrets: 2, eval: 2, ebc: if n % 2 == 0 { 0 } else { 2 }, allow: 2, variant: 0, len: n, len2: Some(300 - n), dict: None, secret_len: None });
         if n % 4 == 0 {
-            v.push(Case { hmac: 2, hmac_mc: true, register: true, ctap: false, uv_required: true, verified: true, secrets: 0, eval: 2, ebc: 0, allow: 0, variant: 0, len: n, len2: Some(300 - n), dict: None });
+            v.push(Case { hmac: 2, hmac_mc: true, register: true, ctap: false, uv_required: true, verified: true, secrets: 0, eval: 2, ebc: 0, allow: 0, variant: 0, len: n, len2: Some(300 - n), dict: None, secret_len: None });
+        }
+    }
+    // stored secrets of other lengths than the library generates (below, at and above the hash's
+    // block size of 64 bytes)
+    for secret_len in [0u8, 1, 16, 31, 33, 63, 64, 65, 100, 128, 255] {
+        for verified in [true, false] {
+            for secrets in 1..3u8 {
+                for ctap in [false, true] {
+                    v.push(Case { hmac: 2, hmac_mc: true, register: false, ctap, uv_required: verified, verified, secrets, eval: 2, ebc: 0, allow: 2, variant: 1, len: 32, len2: None, dict: None, secret_len: Some(secret_len) });
+                }
+            }
         }
     }
     // inputs that are constants of the code: "one input per shortcut you can see in the code"
@@ -120,7 +135,7 @@ pub fn cases(tier: Tier) -> Vec<Case> {
             for register in [false, true] {
                 for variant in 0..2u8 {
                     let bytes = if variant == 1 { rp::sha256(&l) } else { l.clone() };
-                    v.push(Case { hmac, hmac_mc: true, register, ctap: false, uv_required: true, verified: true, secrets: 2, eval: 1, ebc: 0, allow: if register { 0 } else { 2 }, variant, len: bytes.len() as u16, len2: None, dict: Some(hex(&bytes)) });
+                    v.push(Case { hmac, hmac_mc: true, register, ctap: false, uv_required: true, verified: true, secrets: 2, eval: 1, ebc: 0, allow: if register { 0 } else { 2 }, variant, len: bytes.len() as u16, len2: None, dict: Some(hex(&bytes)), secret_len: None });
                 }
             }
         }
@@ -217,6 +232,14 @@ fn target_store(c: &Case) -> Shared<RefStore> {
         seeded(&Seed { n: B, rp: "example.com".into(), handle: Some(vec![2]), counter: None, hmac: Some(true) }),
     ]);
     rs.newest_first = false;
+    if let Some(l) = c.secret_len {
+        if let Some(h) = rs.items[0].extensions.hmac_secret.as_mut() {
+            h.cred_with_uv = (0..l).map(|i| i ^ 0x5C).collect();
+            if let Some(s) = h.cred_without_uv.as_mut() {
+                *s = (0..l).map(|i| i ^ 0xA3).collect();
+            }
+        }
+    }
     Shared::new(rs)
 }
 
